@@ -33,6 +33,7 @@ type FuncSpec struct {
 	BudgetS  int               `json:"budget_s"`
 	Env      map[string]uint64 `json:"env"` // concrete parameters readable via zzParam(name)
 	Fixed    map[string]uint64 `json:"fixed"`
+	Prefix   []int             `json:"prefix"`
 }
 
 type Spec struct {
@@ -165,6 +166,14 @@ func main() {
 		return false
 	}
 	interp.OpaqueName = func(n string) bool { return strings.Contains(n, ".metrics).") || strings.Contains(n, "etrics).") }
+	if f := os.Getenv("GOSYM_SLOWLOG"); f != "" {
+		w, _ := os.Create(f)
+		interp.SlowLog = w
+	}
+	if f := os.Getenv("GOSYM_SOLVERLOG"); f != "" {
+		w, _ := os.Create(f)
+		interp.SolverLog = w
+	}
 	interp.Trace = sp.Trace
 	interp.RepoPrefix = "github.com/bloxapp/ssv/"
 
@@ -195,6 +204,7 @@ func main() {
 		interp.MaxPaths = fs.MaxPaths
 		interp.Params = fs.Env
 		interp.Fixed = fs.Fixed
+		interp.StartPrefix = fs.Prefix
 		budget := time.Duration(fs.BudgetS) * time.Second
 		t1 := time.Now()
 		func() {
